@@ -185,8 +185,16 @@ fn gen(g: &mut G, thorough: bool) -> Plan {
                     max_headers = if mh == 100 { None } else { Some(mh) };
                     let mut w = b"HTTP/1.1 200 OK\r\n".to_vec();
                     let mut i = 0;
+                    let same_name = g.chance(1, 2);
+                    if same_name {
+                        g.probe("endless-fields-one-repeated-name");
+                    }
                     while w.len() < total {
-                        w.extend_from_slice(format!("X-{}: v\r\n", i).as_bytes());
+                        if same_name {
+                            w.extend_from_slice(b"Set-Cookie: v\r\n");
+                        } else {
+                            w.extend_from_slice(format!("X-{}: v\r\n", i).as_bytes());
+                        }
                         i += 1;
                     }
                     // every field line is < 16 bytes here; (mh + 1) lines may be read before the limit strikes
